@@ -34,6 +34,8 @@ TRUSTED = [
 ASSUMPTIONS = [
     'constructors forward every argument unchanged to the parameter of the same name; argument names are parameter names',
     'dict keys and set elements are atoms; no complex numbers, frozensets, functions, types',
+    'a sub-object occurring twice in the object graph is printed twice and rebuilt as two equal objects: the '
+    'comparison is by parameter values, object identity (sharing) is not part of the property',
     'single-threaded: the recursion guard of pprint/__repr__ (keyed per thread) is not exercised from a second '
     'thread (seeded mutant C20-r3t3 is outside what this check can see)',
     'script_repr() text is evaluated with only the module roots bound (what its import lines provide), '
@@ -55,7 +57,7 @@ RULE = ('directed prefix (escapes, negative numbers, inf/nan, empty and singleto
         'script_repr(): tokens compared with the model, text eval-ed in a namespace with the classes (direct oracle) '
         'and read by the Lean evaluator. non-trivial = both printers applicable and at least one printed argument; '
         'distinct = distinct canonical recipe')
-COVERAGE_TARGETS = ['sig:published', 'pre:pprint', 'pre:sig', 'hierarchy', 'pre:use', 'pre:set', 'pre:set-on-ancestor', 'atom:num', 'atom:str', 'atom:bytes', 'atom:none', 'atom:negative', 'list', 'list:empty', 'tuple',
+COVERAGE_TARGETS = ['ptype:number', 'number:zero-vs-nonzero-default', 'shared-object', 'sig:published', 'pre:pprint', 'pre:sig', 'hierarchy', 'pre:use', 'pre:set', 'pre:set-on-ancestor', 'atom:num', 'atom:str', 'atom:bytes', 'atom:none', 'atom:negative', 'list', 'list:empty', 'tuple',
                     'tuple:empty', 'tuple:singleton', 'set', 'set:empty', 'dict', 'dict:empty', 'in-dict:obj',
                     'obj:nested', 'sig:default', 'sig:custom', 'sig:posargs', 'sig:kwargs', 'sig:kwonly',
                     'sig:varargs', 'sig:no-varkw', 'name:auto', 'name:auto-like', 'name:explicit',
@@ -137,7 +139,9 @@ class Env:
         for ci, d in enumerate(case['classes']):
             body = {'__module__': d['module']}
             for p in d['params']:
-                body[p['name']] = param.Parameter(default=self.build(p['default']), precedence=p['prec'], instantiate=True)
+                PT = param.Number if p.get('ptype') == 'number' else param.Parameter     # Number: Dynamic family
+                extra = {'allow_None': True} if PT is param.Number else {}
+                body[p['name']] = PT(default=self.build(p['default']), precedence=p['prec'], instantiate=True, **extra)
             sig = d['sig']
             self.cur_sig.append(sig)
             if sig.get('published'):
@@ -191,6 +195,10 @@ class Env:
                     setattr(cur, part, types.SimpleNamespace())
                 cur = getattr(cur, part)
             setattr(cur, d['name'], cls)
+        # objects that will occur more than once in the object graph
+        self.lets = []
+        for r in case.get('lets', []):
+            self.lets.append(self.build(r))
         # history before the object is built: classes get used (their parameter namespace is read and
         # cached), class-level defaults are re-assigned, possibly on a class in the middle of a hierarchy
         for step in case.get('pre', []):
@@ -249,6 +257,8 @@ class Env:
         if 'o' in r:
             ci, pos, kw = r['o']
             return self.classes[ci](*[self.build(x) for x in pos], **{k: self.build(v) for k, v in kw})
+        if 'ref' in r:
+            return self.lets[r['ref']]          # the very same object again (aliasing, no cycle)
         raise ValueError(r)
 
     def state_of(self, v):
@@ -548,8 +558,8 @@ def O(ci, *pos, **kw):
     return {'o': [ci, list(pos), [[k, v] for k, v in kw.items()]]}
 
 
-def P(name, default, prec=None):
-    return {'name': name, 'default': default, 'prec': prec}
+def P(name, default, prec=None, ptype='parameter'):
+    return {'name': name, 'default': default, 'prec': prec, 'ptype': ptype}
 
 
 def SIG(args=(), defaults=(), kwonly=(), varargs=None, varkw=True, custom=True):
@@ -586,8 +596,12 @@ def SET(ci, pname, v):
     return {'op': 'set', 'cls': ci, 'p': pname, 'v': v}
 
 
-def _mk(classes, build, pre=()):
-    return {'classes': classes, 'pre': list(pre), 'build': build}
+def REF(i):
+    return {'ref': i}
+
+
+def _mk(classes, build, pre=(), lets=()):
+    return {'classes': classes, 'pre': list(pre), 'lets': list(lets), 'build': build}
 
 
 def _directed():
@@ -676,6 +690,24 @@ def _directed():
     pb3['sig_final'] = PSIG(['s'], [A('x')])
     yield _mk([IN, Acls, pb3], O(2, n=A(2)), [PPRINT(2, O(2, A(5), A('x'))), RESIG(2, pb3['sig_final']),
                                               PPRINT(2, O(2, A('k'), n=A(1)))])
+    # Number (Dynamic family) parameters holding falsy values that differ from a truthy default
+    FIL = C('Filter', [P('gain', A(1.5), None, 'number'), P('order', A(3), 1, 'number'), P('bias', A(None), None, 'number'),
+                       P('tag', A('f'))])
+    yield _mk([FIL], O(0, gain=A(0)))
+    yield _mk([FIL], O(0, gain=A(0.0), order=A(0), bias=A(0)))
+    yield _mk([FIL], O(0, gain=A(-0.0), order=A(3), bias=A(None), tag=A('')))
+    FIL2 = C('Filter2', FIL['params'], SIG(['gain', 'order'], [A(3)]))
+    yield _mk([FIL2], O(0, A(0)))
+    yield _mk([FIL2], O(0, A(0), A(0), bias=A(0.0)))
+    # the same object reachable twice without a cycle: two parameters, twice in a list, once in each of two
+    # branches, in a dict value; the rebuilt graph may hold two equal objects instead (values are compared)
+    PAIR = C('Pair', [P('left', A(None)), P('right', A(None)), P('items', L())])
+    yield _mk([IN, PAIR], O(1, left=REF(0), right=REF(0)), lets=[O(0, q=A(3))])
+    yield _mk([IN, PAIR], O(1, items=L(REF(0), REF(0), Tu(REF(0)))), lets=[O(0, q=A(3), name=A('shared'))])
+    yield _mk([IN, PAIR], O(1, left=O(1, left=REF(0)), right=O(1, items=L(REF(0))), items=D(('k', REF(0)))),
+              lets=[O(0, q=A(-1))])
+    yield _mk([IN, PAIR], O(1, left=REF(1), right=REF(1), items=L(REF(0))),
+              lets=[O(0, q=A(2)), O(1, left=REF(0), right=REF(0))])
     # name as a keyword argument of the signature
     NM = C('NM', Acls['params'], SIG(['n', 'name'], [A('fixed')]))
     yield _mk([IN, Acls, NM], O(2, A(5)))
@@ -708,8 +740,25 @@ def _key(rng):
     return rng.choice(['k', 'j', 'a b', '', 1, 0, -3, 2.5, None, 'it\'s'])
 
 
+_NUMS = [0, 0.0, -0.0, 1, -5, 1.5, 2.5, -2.5, 7, 10 ** 30, 1e-07, INF, -INF]
+
+
+def _num(rng):
+    return A(rng.choice(_NUMS) if rng.random() < 0.95 else None)
+
+
+def _ptype(d, pname):
+    return next((p.get('ptype') for p in d['params'] if p['name'] == pname), None)
+
+
+_LETS = []      # (class index, position in case['lets']) of the objects that may be referred to again
+
+
 def _value(rng, depth, nobj):
     """a recipe; nobj = number of classes that may be instantiated (indices < nobj)"""
+    refs = [i for c, i in _LETS if c < nobj]
+    if refs and depth > 0 and rng.random() < 0.25:
+        return REF(rng.choice(refs))
     r = rng.random()
     if depth <= 0 or r < 0.45:
         return A(_atom(rng))
@@ -750,7 +799,8 @@ def _call(rng, ci, depth, classes):
     npos = len(sig['args']) - nd
     pos, kw = [], {}
     for a in sig['args'][:npos]:
-        pos.append(_name_value(rng, d) if a == 'name' else _value(rng, depth, ci))
+        pos.append(_name_value(rng, d) if a == 'name' else
+                   (_num(rng) if _ptype(d, a) == 'number' else _value(rng, depth, ci)))
     rest = sig['args'][npos:]
     if rest and rng.random() < 0.3:               # some defaulted arguments given positionally
         for a in rest[:rng.randint(1, len(rest))]:
@@ -786,6 +836,8 @@ def _maybe_default(rng, d, pname, depth, ci):
         for a, x in list(zip(sig['args'][len(sig['args']) - nd:], sig['defaults'])) + [(k, x) for k, x in sig['kwonly'] if x]:
             if a == pname:
                 return copy.deepcopy(x)
+    if _ptype(d, pname) == 'number':
+        return _num(rng)
     return _value(rng, depth, ci)
 
 
@@ -796,7 +848,7 @@ def _name_value(rng, d):
 
 
 def _has_obj(r):
-    if 'o' in r:
+    if 'o' in r or 'ref' in r:
         return True
     return any(_has_obj(x) for x in r.get('l', r.get('t', [kv[1] for kv in r.get('d', [])])))
 
@@ -805,14 +857,25 @@ def _random_case(rng):
     ncls = rng.choice([1, 2, 2, 3])
     classes = []
     _CLASSES_FOR_CALL[:] = [classes]
+    _LETS[:] = []
     for ci in range(ncls):
         names = rng.sample(_PNAMES, rng.randint(1, 5))
         params = []
         for n in names:
-            params.append(P(n, _value(rng, 2, ci), rng.choice([None, None, None, 0, 1, -1, 5, 2])))
+            if rng.random() < 0.25:
+                params.append(P(n, _num(rng), rng.choice([None, None, None, 0, 1, -1, 5, 2]), 'number'))
+            else:
+                params.append(P(n, _value(rng, 2, ci), rng.choice([None, None, None, 0, 1, -1, 5, 2])))
         base = None
         if ci > 0 and rng.random() < 0.35:
             base = ci - 1
+            # an overriding Parameter keeps the kind of the one it overrides (the inherited constructor
+            # passes values written for that kind)
+            for p in params:
+                bt = _ptype(_flat(classes, base), p['name'])
+                if bt is not None and bt != p['ptype']:
+                    p['ptype'] = bt
+                    p['default'] = _num(rng) if bt == 'number' else _value(rng, 2, 0)
             if rng.random() < 0.4:
                 params = params[:rng.randint(0, len(params))]      # often only inherits
         r = rng.random()
@@ -831,16 +894,19 @@ def _random_case(rng):
             defaults = []
             for a in args[len(args) - nd:]:
                 pd = next((p['default'] for p in params if p['name'] == a), A('nm'))
+                isnum = any(p['name'] == a and p.get('ptype') == 'number' for p in params)
                 defaults.append(copy.deepcopy(pd) if rng.random() < 0.5 and a != 'name' and not _has_obj(pd) else
-                                (A(rng.choice(['fixed', 'Q1'])) if a == 'name' else _value(rng, 2, 0)))
+                                (A(rng.choice(['fixed', 'Q1'])) if a == 'name' else
+                                 (_num(rng) if isnum else _value(rng, 2, 0))))
             kwonly, varargs, varkw = [], None, True
             r2 = rng.random()
             left = [n for n in names if n not in args]
             if r2 < 0.1 and left:
                 for n in rng.sample(left, rng.randint(1, min(2, len(left)))):
                     pd = next(p['default'] for p in params if p['name'] == n)
-                    kwonly.append([n, rng.choice([None, _value(rng, 1, 0) if _has_obj(pd) else copy.deepcopy(pd),
-                                                  _value(rng, 1, 0)])])
+                    isnum = any(p['name'] == n and p.get('ptype') == 'number' for p in params)
+                    fresh = (lambda: _num(rng)) if isnum else (lambda: _value(rng, 1, 0))
+                    kwonly.append([n, rng.choice([None, fresh() if _has_obj(pd) else copy.deepcopy(pd), fresh()])])
             elif r2 < 0.16:
                 varargs = rng.choice(['args', 'rest'])
             elif r2 < 0.26:
@@ -868,7 +934,15 @@ def _random_case(rng):
             if rng.random() < 0.5 or not pn or not open_sig:
                 pre.append(USE(rng.randrange(ncls)))
             else:
-                pre.append(SET(cj, rng.choice(pn), _value(rng, 2, 0)))
+                pname = rng.choice(pn)
+                pre.append(SET(cj, pname, _num(rng) if _ptype(_flat(classes, cj), pname) == 'number' else _value(rng, 2, 0)))
+    lets = []
+    if ncls > 1 and rng.random() < 0.3:
+        # objects that occur more than once in the object graph (the same object, not a copy)
+        for _ in range(rng.randint(1, 2)):
+            cj = rng.randrange(ncls - 1)
+            lets.append(_call(rng, cj, 2, classes))
+            _LETS.append((cj, len(lets) - 1))
     pub = [k for k in range(ncls) if classes[k]['sig'].get('published')]
     if pub and rng.random() < 0.7:
         k = rng.choice(pub)
@@ -876,10 +950,13 @@ def _random_case(rng):
         pn = [p['name'] for p in classes[k]['params']]
         args = rng.sample(pn, rng.randint(0, len(pn)))
         nd = rng.randint(0, len(args))
-        new = PSIG(args, [_value(rng, 1, 0) for _ in range(nd)])
+        new = PSIG(args, [_num(rng) if _ptype(classes[k], a) == 'number' else _value(rng, 1, 0)
+                          for a in args[len(args) - nd:]])
         pre.append(RESIG(k, new))
         classes[k]['sig_final'] = new
-    return _mk(classes, _call(rng, ncls - 1, 3, classes), pre)
+    build = _call(rng, ncls - 1, 3, classes)
+    _LETS[:] = []
+    return _mk(classes, build, pre, lets)
 
 
 def cases(rng, tier, worker, nworkers):
@@ -919,6 +996,18 @@ def tags(case, impl):
         t.append('hierarchy')
     if any(d['sig'].get('published') for d in case['classes']):
         t.append('sig:published')
+    if any(p.get('ptype') == 'number' for d in case['classes'] for p in d['params']):
+        t.append('ptype:number')
+    import json as _json
+    if '"ref"' in _json.dumps(case['build']):
+        t.append('shared-object')
+    if isinstance(impl, dict) and 'state' in impl:
+        top = case['classes'][case['build']['o'][0]]
+        cls = impl['classes'][impl['state']['o'][0]]
+        for p, v in zip(cls['params'], impl['state']['o'][1]):
+            if _ptype(top, p['name']) == 'number' and 'a' in v and v['a']['eq'] == '0/1' \
+                    and p['default'].get('a', {}).get('eq') not in ('0/1', None):
+                t.append('number:zero-vs-nonzero-default')
     for st in case.get('pre', []):
         t.append('pre:' + st['op'])
         top = case['build']['o'][0]
